@@ -2,7 +2,7 @@
     Model: Model/Blocks.v — the token game of block-structured programs (sequence, parallel,
     exclusive, inclusive with default, do-while loop, task with conditional outgoing flows, embedded
     sub-process), variables written by the answers steering the conditions. *)
-From BV Require Import Model.Blocks Model.Cohort Proofs.BlocksProofs Proofs.TokenGameProofs.
+From BV Require Import Model.Blocks Model.Cohort Model.FlowLeave Proofs.BlocksProofs Proofs.TokenGameProofs Proofs.FlowLeaveProofs.
 From Coq Require Import Permutation.
 Open Scope nat_scope.
 
@@ -34,6 +34,22 @@ Print Assumptions C01_only_answers_move_tokens.
 Theorem C01_subprocess_transparent : forall b e ops, behaviour (flatten b) e ops = behaviour b e ops.
 Proof. exact inline_equiv. Qed.
 Print Assumptions C01_subprocess_transparent.
+
+(* CONDITIONAL FLOWS LEAVING A NODE (flow.go) — for every list of conditions: every flow whose condition
+   holds receives exactly one token, no other flow any; the node is never asked again for the same
+   token (a task is not requested twice); the token ends there iff no condition holds *)
+Theorem C01_conditional_flows_exactly_the_true_ones : forall conds,
+  placed (leave false conds) = flowing conds /\ asks_again (leave false conds) = false /\
+  NoDup (placed (leave false conds)) /\
+  (forall i, In i (placed (leave false conds)) <-> nth_error conds i = Some true) /\
+  (leave false conds = Ends <-> forall i, nth_error conds i <> Some true).
+Proof. exact leave_places_exactly. Qed.
+Print Assumptions C01_conditional_flows_exactly_the_true_ones.
+Theorem C01_requested_once_refuted_before_fix :
+  leave true [false; true] = Stays [1] /\ asks_again (leave true [false; true]) = true /\
+  leave false [false; true] = Continues 1 [].
+Proof. exact leave_refuted_first_only. Qed.
+Print Assumptions C01_requested_once_refuted_before_fix.
 
 (* OPEN FINDING C01-gateway-nested-in-inclusive, as a theorem about the engine's firing rule
    (Model/Cohort.v: an inclusive gateway fires when every live token tagged like the first arrived one
